@@ -27,7 +27,7 @@ EXPLANATION = (
     "frames; inverse laws on values."
 )
 LEVEL_RULE = "one obligation per (method) / (constructor parameter) / (constructor call, attribute) / raise"
-FLOORS = {"R1": 10, "R2": 28, "R3": 20, "R4": 6, "R5": 10, "R6": 2, "R7": 1, "R8": 1, "R9": 2, "R10": 1, "R11": 1}
+FLOORS = {"R1": 10, "R2": 28, "R3": 20, "R4": 6, "R5": 10, "R6": 2, "R7": 1, "R8": 1, "R9": 2, "R10": 1, "R11": 1, "R12": 8}
 
 COLUMN_CLASSES = ["pandera/api/pandas/components.py::Column", "pandera/api/polars/components.py::Column"]
 # attributes that a conversion between Column and Index legitimately sets itself / cannot carry over
@@ -495,7 +495,40 @@ def r11_rename_reaches_unique(ctx):
            "so joint uniqueness is checked on ('b',) alone and the renamed schema rejects the renamed frame", f.loc(f.node))
 
 
+def r12_fresh_result(ctx):
+    """A transforming method returns a *new* schema on every path.  `return self` (an early exit for a request that
+    changes nothing, e.g. a rename map of identity entries) hands the caller an alias of the receiver: editing the
+    result then silently edits the original schema and changes its verdicts."""
+    from ..util import Expander
+    ix = ctx.ix
+    seen = set()
+    n = 0
+    for q in SCHEMA_CLASSES:
+        c = ix.cls(q)
+        for m in TRANSFORMS:
+            f = c.lookup(m)
+            if f is None or f.qual in seen:
+                continue
+            seen.add(f.qual)
+            ex = Expander(f.node)
+            for r in walk_no_nested(f.node):
+                if not isinstance(r, ast.Return) or r.value is None:
+                    continue
+                n += 1
+                v = ex.expand(r.value)
+                while isinstance(v, ast.Call) and callee_last(v) == "cast" and len(v.args) == 2:
+                    v = v.args[1]
+                alias = isinstance(v, ast.Name) and v.id == "self"
+                ctx.ob("R12", f, f"{f.short}: `{txt(r)[:40]}` returns a new schema", not alias,
+                       "not the receiver" if not alias else
+                       "the receiver itself is returned on this path: the caller's edits of the result (strict, name, a column's nullable ...) change the "
+                       "original schema", f.loc(r))
+    if n < 8:
+        raise AnalysisError(f"transformation returns found: {n}")
+
+
 def run(ctx):
+    r12_fresh_result(ctx)
     r11_rename_reaches_unique(ctx)
     r9_set_name_scope(ctx)
     r10_names_by_none_only(ctx)
